@@ -124,14 +124,14 @@ class DOMParser:
                 and d.tag.lower() != "lxmltext"
             ):
                 child = lxml.html.Element("lxmltext")
-                child.text = d.text
+                child.text = xml_compatible(d.text)
                 d.insert(0, child)
                 d.text = None
 
             if d.tail:
                 parent = d.getparent()
                 child = lxml.html.Element("lxmltext")
-                child.text = d.tail
+                child.text = xml_compatible(d.tail)
                 parent.insert(parent.index(d) + 1, child)
                 d.tail = None
 
@@ -1177,6 +1177,19 @@ def compare_document_position(node1: DOMNode, node2: DOMNode) -> int:
         return 1  # Disconnected
 
 
+_XML_INCOMPATIBLE = re.compile("[\x00-\x08\x0b\x0c\x0e-\x1f]")
+
+
+def xml_compatible(text: str) -> str:
+    """lxml refuses to store control characters that its HTML parser lets through
+    (`&#12;`, a raw form feed, `&#1;`): form feed and vertical tab are white space,
+    anything else becomes the replacement character."""
+    return _XML_INCOMPATIBLE.sub(
+        lambda m: " " if m.group() in "\x0b\x0c" else "\ufffd",
+        text,
+    )
+
+
 def get_node_type(element: DOMNode) -> int:
     if not isinstance(element, lxml.etree._Element):
         msg = "The provided element is not an lxml HtmlElement."
@@ -1199,7 +1212,13 @@ def get_node_type(element: DOMNode) -> int:
 
 
 def from_html(schema: Schema[Any, Any], html: str) -> JSONDict:
-    fragment = lxml.html.fragment_fromstring(html, create_parent="document-fragment")
+    # what `fragment_fromstring(html, create_parent="document-fragment")` does, with the
+    # leading text made XML-compatible before it is stored on the new root
+    parts = lxml.html.fragments_fromstring(html)
+    fragment = lxml.html.Element("document-fragment")
+    if parts and isinstance(parts[0], str):
+        fragment.text = xml_compatible(parts.pop(0))
+    fragment.extend(parts)
 
     prose_doc = DOMParser.from_schema(schema).parse(fragment)
 
